@@ -331,6 +331,7 @@ type netRun struct {
 	kit     *sidKit
 	kitBlk  *ledger.Block
 	side    [][32]byte // headers of dead side branches sent so far
+	planned []plannedBlock
 	cver    map[int]int     // per peer: compact-block version announced with sendcmpct
 }
 
@@ -384,7 +385,31 @@ func (n *netRun) plan(p int, r *hx.Rng) *cbPlan {
 		return nil
 	}
 	n.plans[p] = &cbPlan{blk: bl[0]}
+	n.planned = append(n.planned, plannedBlock{hash: bl[0].Hash(), prev: bl[0].H.Prev, raw: append([]byte{}, bl[0].Bytes()...), hdr: append([]byte{}, bl[0].H.Bytes()...), height: n.model.Height + 1})
 	return n.plans[p]
+}
+
+// plannedBlock is a valid block some peer's conversation was about, as it was built (a conversation may go on
+// to spoil its own copy).
+type plannedBlock struct {
+	hash, prev [32]byte
+	raw, hdr   []byte
+	height     uint32
+}
+
+// sentMessages parses what the node has written to a connection so far, from offset *off on.
+func sentMessages(buf []byte, off *int) (res [][2][]byte) {
+	for *off+24 <= len(buf) {
+		b := buf[*off:]
+		ln := int(binary.LittleEndian.Uint32(b[16:20]))
+		if 24+ln > len(b) {
+			break
+		}
+		cmd := bytes.TrimRight(b[4:16], "\x00")
+		res = append(res, [2][]byte{cmd, b[24 : 24+ln]})
+		*off += 24 + ln
+	}
+	return
 }
 
 func shortID(hdr, nonce []byte, t *ledger.Tx, ver int) []byte {
@@ -1409,7 +1434,8 @@ func (NetH) Run(t *testing.T, c *hx.Case) *hx.Outcome {
 				simrt.Go(func() { oc.Run(); fin = true })
 				r := hx.NewRng(99)
 				nonce := r.Bytes(8)
-				conn.Push(0, wireMsg("version", n.versionPayload(r, n.model.Height), "", r), nil)
+				conn.Push(0, wireMsg("version", n.versionPayload(r, n.model.Height+3), "", r), nil)
+				conn.Push(time.Millisecond, wireMsg("verack", nil, "", r), nil)
 				conn.Push(time.Millisecond, wireMsg("ping", nonce, "", r), nil)
 				ok := false
 				for i := 0; i < 200 && !ok; i++ {
@@ -1420,6 +1446,7 @@ func (NetH) Run(t *testing.T, c *hx.Case) *hx.Outcome {
 					viol("liveness.fresh-peer", "after the faulty peers were gone a fresh well-behaved peer sent version + ping and got no pong within 5 simulated seconds (node wedged); bytes sent to it: %d", len(conn.Sent))
 				} else {
 					out.Probe("fresh_peer_served", 1)
+					n.honestRelay(conn, r, viol)
 				}
 				conn.Push(0, nil, simnet.ErrReset)
 				for i := 0; i < 400 && !fin; i++ {
@@ -1483,6 +1510,68 @@ func (NetH) Run(t *testing.T, c *hx.Case) *hx.Outcome {
 	}
 	out.StateHash = fmt.Sprintf("%d/%d", len(msgs), n.maxStep/1000)
 	return out
+}
+
+// honestRelay: bounded liveness once the faults have stopped.  The fresh peer offers one valid block on top of the
+// node's tip - a block an earlier (now gone) peer's conversation was about, if there is one that never got connected,
+// else a new one - the way a well-behaved peer does: header announced, the node's getheaders answered, the block sent
+// when the node asks for it.  The node must have connected it within 30 simulated seconds.
+func (n *netRun) honestRelay(conn *simnet.Conn, r *hx.Rng, viol func(string, string, ...any)) {
+	n.syncModel()
+	tipHash, _ := n.n.Tip()
+	if n.model == nil || n.model.Hash != tipHash {
+		return // (the model lost track of the node's tip: nothing to offer on top of it)
+	}
+	var x *plannedBlock
+	for i := range n.planned {
+		pb := &n.planned[i]
+		if ln := n.l.Nodes[pb.hash]; pb.prev == tipHash && ln != nil && ln.Valid() && ln.Blk != nil && bytes.Equal(ln.Blk.H.Bytes(), pb.hdr) {
+			x = pb
+			n.out.Probe("liveness_block_from_an_earlier_conversation", 1)
+			break
+		}
+	}
+	if x == nil {
+		bl := n.newBlocksN(r, 1, r.Intn(3))
+		if len(bl) == 0 {
+			return
+		}
+		x = &plannedBlock{hash: bl[0].Hash(), prev: bl[0].H.Prev, raw: bl[0].Bytes(), hdr: bl[0].H.Bytes(), height: n.model.Height + 1}
+		n.out.Probe("liveness_fresh_block", 1)
+	}
+	off := 0
+	sentMessages(conn.Sent, &off) // what was said so far
+	announce := append(append(vint(1), x.hdr...), 0)
+	conn.Push(0, wireMsg("headers", announce, "", r), nil)
+	asked, sentBlock := false, false
+	for i := 0; i < 1200; i++ {
+		simrt.Sleep(25 * time.Millisecond)
+		if h, _ := n.n.Tip(); h == x.hash {
+			n.out.Probe("liveness_block_connected", 1)
+			return
+		}
+		for _, m := range sentMessages(conn.Sent, &off) {
+			switch string(m[0]) {
+			case "getheaders":
+				conn.Push(0, wireMsg("headers", announce, "", r), nil)
+			case "getdata":
+				if bytes.Contains(m[1], x.hash[:]) {
+					asked = true
+					if !sentBlock {
+						conn.Push(0, wireMsg("block", x.raw, "", r), nil)
+						sentBlock = true
+					}
+				}
+			case "ping":
+				conn.Push(0, wireMsg("pong", m[1], "", r), nil)
+			}
+		}
+	}
+	if n.bad {
+		return
+	}
+	h, hh := n.n.Tip()
+	viol("liveness.block-not-connected", "after the faulty peers were gone a fresh well-behaved peer announced the valid block %s (height %d, child of the node's tip) by its header, answered the node's getheaders and would have sent the block on request: 30 simulated seconds later the node's tip is still %s (height %d); the node asked for the block: %v, the block was sent: %v", hs(x.hash), x.height, hs(h), hh, asked, sentBlock)
 }
 
 // mainBlock re-states client/main.go:HandleNetBlock + LocalAcceptBlock for a block handed over by a handler.
